@@ -22,6 +22,9 @@ import (
 	"golang.org/x/tools/go/packages"
 )
 
+// the js/wasm build of the library: its own derivation and validation (derive_rfc4226_wasm.go, validate_wasm.go)
+var wantedWasm = []string{"Digits.Int", "truncate", "pow10Wasm", "DeriveRFC4226Wasm", "ValidateOTPWasm"}
+
 // the functions to translate, callees before callers
 var wanted = []string{
 	"Digits.Int", "DecodeSecret",
@@ -91,7 +94,12 @@ func main() {
 	}
 	repo, out, report := os.Args[1], os.Args[2], os.Args[3]
 	t := &tr{decls: map[string]*ast.FuncDecl{}, lits: map[string]*ast.FuncLit{}, done: map[string]*fnInfo{}, failed: map[string]string{}, skip: map[string]bool{}}
+	wasm := false
 	for i := 4; i < len(os.Args); i++ {
+		if os.Args[i] == "-wasm" {
+			wasm = true
+			wanted = wantedWasm
+		}
 		if os.Args[i] == "-skip" && i+1 < len(os.Args) {
 			for _, s := range strings.Split(os.Args[i+1], ",") {
 				if s != "" {
@@ -101,7 +109,11 @@ func main() {
 		}
 	}
 	t.fset = token.NewFileSet()
-	cfg := &packages.Config{Mode: packages.LoadAllSyntax, Dir: repo, Env: os.Environ(), Fset: t.fset}
+	env := os.Environ()
+	if wasm {
+		env = append(env, "GOOS=js", "GOARCH=wasm")
+	}
+	cfg := &packages.Config{Mode: packages.LoadAllSyntax, Dir: repo, Env: env, Fset: t.fset}
 	pkgs, err := packages.Load(cfg, ".")
 	if err != nil || len(pkgs) != 1 || packages.PrintErrors(pkgs) > 0 {
 		fmt.Fprintln(os.Stderr, "gen_model: load failed", err)
